@@ -1,4 +1,7 @@
 import FcpptProofs.C15.Bytes
+import FcpptProofs.C15.Extract
+import FcpptProofs.C15.EnumVec
+import FcpptProofs.C15.Old
 /-!
 # C15 — textual and binary encodings round-trip losslessly: property theorems
 
@@ -123,5 +126,161 @@ example : swap .little i16 1 = .ok 256 := by decide
 example : swap .little i16 128 = .ok (-32768) := by decide
 example : reverseMem [1, 2, 3, 4, 5] = .ok [5, 4, 3, 2, 1] := by decide
 example : u32.InRange 0x01020304 ∧ i16.InRange (-2) := by decide
+
+
+/-! ## decimal text (`output_to_string`, `extract_from_string`) -/
+
+/-- Printing any value of any integer type of 1…8 bytes (that is not a character type) and parsing the text back
+gives the value: `extract_from_string<T>(output_to_string(v)) = v`, and the whole text is consumed. -/
+theorem extract_output_roundtrip (t : IntTy) (ht : 0 < t.bytes) (h8 : t.bytes ≤ 8) (v : Int) (hv : t.InRange v) :
+    extractFromString (.num t) (outputToString (.num t) v) = some v :=
+  extractFromString_output_num t ht h8 v hv
+
+/-- Character types (`char`, `signed char`, `unsigned char` = `std::int8_t`/`std::uint8_t`) are written and read as
+one character: every value whose character is not white space comes back (needs the `peek()` test of 900f8ee) … -/
+theorem extract_output_roundtrip_char (sg : Bool) (v : Int) (hv : IntTy.InRange ⟨1, sg⟩ v) (hs : isSpace (charCode v) = false) :
+    extractFromString (.char sg) (outputToString (.char sg) v) = some v := by
+  have hc : charValue sg (charCode v) = v := by
+    unfold IntTy.InRange IntTy.minVal IntTy.maxVal IntTy.bits at hv
+    unfold charValue charCode
+    cases sg <;> simp at hv ⊢ <;> omega
+  unfold extractFromString extract outputToString IStream.ofString
+  simp only [getChar_nonspace _ _ hs, Bool.false_eq_true, if_false, Option.map_some, hc]
+  simp [peek, sentry, IStream.good]
+
+/-- … and for the six white-space characters (`\t \n \v \f \r` and space) the extraction skips the character and
+reports failure: no value, never a wrong one. -/
+theorem extract_output_char_whitespace (sg : Bool) (v : Int) (hs : isSpace (charCode v) = true) :
+    extractFromString (.char sg) (outputToString (.char sg) v) = none := by
+  unfold extractFromString extract outputToString IStream.ofString getChar sentry IStream.good
+  simp [List.dropWhile, hs]
+
+/-- Never truncates: when `extract_from_string<T>` returns a value, the **whole** text was the numeral (white space,
+optional sign, digits — nothing behind), the value is the numeral's value and a value of the type. -/
+theorem extract_never_truncates (t : IntTy) (ht : 0 < t.bytes) (s : List Ch) (v : Int)
+    (h : extractFromString (.num t) s = some v) :
+    ∃ neg mag, Spec.IsNumeral s neg mag ∧ t.InRange v ∧ v = Spec.numeralValue t.signed t.bits neg mag :=
+  extractFromString_num_some t ht s v h
+
+/-- Anything behind the numeral that is not a further digit makes the extraction fail. -/
+theorem extract_rejects_trailing (t : IntTy) (ht : 0 < t.bytes) (h8 : t.bytes ≤ 8) (v : Int) (hv : t.InRange v)
+    (c : Ch) (rest : List Ch) (hc : isDigit c = false) :
+    extractFromString (.num t) (outputToString (.num t) v ++ c :: rest) = none := by
+  have h := extractNum_putInt t ht h8 v hv (c :: rest) (noDigitHead_cons hc)
+  unfold extractFromString extract outputToString IStream.ofString
+  simp only [h]
+  simp [peek, sentry, IStream.good]
+
+/-- A character destination accepts exactly: white space, then one character that is the last one. -/
+theorem extract_never_truncates_char (sg : Bool) (s : List Ch) (v : Int) (h : extractFromString (.char sg) s = some v) :
+    ∃ ws c, s = ws ++ [c] ∧ (∀ x ∈ ws, Spec.IsSpaceChar x) ∧ isSpace c = false ∧ v = charValue sg c := by
+  unfold extractFromString extract IStream.ofString getChar sentry IStream.good at h
+  simp only [Bool.not_false, Bool.and_self, if_true, Bool.false_eq_true, if_false] at h
+  have hsplit := List.takeWhile_append_dropWhile (p := isSpace) (l := s)
+  cases hb : s.dropWhile isSpace with
+  | nil => simp [hb] at h
+  | cons c r =>
+    simp only [hb, List.isEmpty_cons, Bool.false_eq_true, if_false, if_true, Option.map_some] at h
+    have hcs : isSpace c = false := by
+      cases hc : isSpace c with
+      | false => rfl
+      | true =>
+        have h1 : (s.dropWhile isSpace).head? = some c := by rw [hb]; rfl
+        have := List.head?_dropWhile_not (p := isSpace) (l := s)
+        rw [h1] at this
+        simp [hc] at this
+    cases r with
+    | nil =>
+      refine ⟨s.takeWhile isSpace, c, ?_, takeWhile_space_spec s, hcs, ?_⟩
+      · rw [← hb, hsplit]
+      · simp [peek, sentry, IStream.good] at h; exact h.symm
+    | cons d r => simp [peek, sentry, IStream.good] at h
+
+/-! ### the defect repaired by 900f8ee, refuted on a witness: with `iss.eof()` no character could ever be extracted -/
+
+example : Old.extractFromString (.char true) [97] = none := by decide
+example : extractFromString (.char true) [97] = some 97 := by decide
+/-- for number types both tests agree on this input -/
+example : Old.extractFromString (.num i16) [45, 49, 50] = some (-12) ∧ extractFromString (.num i16) [45, 49, 50] = some (-12) := by decide
+
+/-! ### non-vacuity -/
+example : outputToString (.num i16) (-32768) = [45, 51, 50, 55, 54, 56] := by decide
+example : extractFromString (.num i16) [32, 45, 51, 50, 55, 54, 56] = some (-32768) := by decide
+example : extractFromString (.num i16) [51, 50, 55, 54, 56] = none := by decide          -- 32768 overflows short
+example : extractFromString (.num ⟨2, false⟩) [45, 49] = some 65535 := by decide         -- "-1" into unsigned short (num_get rule)
+example : extractFromString (.num i16) [49, 50, 32] = none := by decide                  -- trailing blank
+
+/-! ## enums (`to_string`, `from_string`, `<<`, `>>`) over a names table -/
+
+/-- `from_string(to_string(e)) = e` for every enumerator of every enum whose names are pairwise different. -/
+theorem from_string_to_string (names : List (List Ch)) (hn : names.Nodup) (e : Nat) (he : e < names.length) :
+    ∃ n, enumToString names e = .ok n ∧ enumFromString names n = some e := by
+  refine ⟨names[e], by simp [enumToString, he], ?_⟩
+  exact indexOf_getElem names hn e _ (by simp [he])
+
+/-- `to_string(from_string(s)) = s` whenever `from_string` finds something (no assumption on the table), and it finds
+the first enumerator with that name. -/
+theorem to_string_from_string (names : List (List Ch)) (s : List Ch) (e : Nat) (h : enumFromString names s = some e) :
+    enumToString names e = .ok s ∧ ∀ j, j < e → enumToString names j ≠ .ok s := by
+  obtain ⟨h1, h2⟩ := indexOf_some names s e h
+  refine ⟨by simp [enumToString, h1], fun j hj hc => ?_⟩
+  unfold enumToString at hc
+  cases hj' : names[j]? with
+  | none => simp [hj'] at hc
+  | some n => simp [hj'] at hc; exact h2 j hj (by rw [hj', hc])
+
+/-- `from_string` fails exactly on the strings that are not a name. -/
+theorem from_string_none_iff (names : List (List Ch)) (s : List Ch) : enumFromString names s = none ↔ s ∉ names :=
+  indexOf_none names s
+
+/-- Stream output then stream input gives the enumerator back and stops right behind the name (at the end of the
+text or in front of white space), for every enumerator whose name is non-empty and free of white space and NUL. -/
+theorem enum_stream_roundtrip (names : List (List Ch)) (hn : names.Nodup) (e : Nat) (n : List Ch) (rest : List Ch)
+    (hname : enumToString names e = .ok n) (hne : n ≠ []) (hw : ∀ c ∈ n, isSpace c = false ∧ c ≠ 0) (hr : SpaceHead rest) :
+    ∃ out, enumOutput names [] e = .ok out ∧
+      enumInput names { buf := out ++ rest, eof := false, fail := false } = ({ buf := rest, eof := rest.isEmpty, fail := false }, some e) := by
+  refine ⟨n, by simp [enumOutput, hname, bind, Except.bind, pure, Except.pure], ?_⟩
+  have hidx : names[e]? = some n := by
+    unfold enumToString at hname
+    cases h : names[e]? with
+    | none => simp [h] at hname
+    | some m => simp [h] at hname; rw [hname]
+  have hnar : narrowString n = some n := by
+    unfold narrowString
+    rw [if_neg]
+    simp only [List.any_eq_true, not_exists, not_and]
+    intro c hc; simp; exact (hw c hc).2
+  unfold enumInput
+  rw [getWord_word n rest hne (fun c hc => (hw c hc).1) hr]
+  simp [hnar, enumFromString, indexOf_getElem names hn e n hidx]
+
+/-! ### non-vacuity and the role of the hypothesis: with a duplicated name the first enumerator wins -/
+example : enumFromString [[97], [98], [97]] [97] = some 0 := by decide
+example : enumToString [[97], [98], [97]] 2 = .ok [97] := by decide
+example : ([[102, 111, 111], [98, 97, 114]] : List (List Ch)).Nodup := by decide
+example : enumInput [[102, 111, 111], [98, 97, 114]] (IStream.ofString [32, 98, 97, 114, 10]) =
+    ({ buf := [10], eof := false, fail := false }, some 1) := by decide
+example : (enumInput [[102, 111, 111], [98, 97, 114]] (IStream.ofString [98, 97])).2 = none := by decide
+
+/-! ## vectors and dims (`(a,b,c)`) -/
+
+/-- Writing a vector of any length whose elements are values of the element type and reading it back gives the same
+elements, consumes exactly the text written and leaves the stream good. -/
+theorem vector_input_output_roundtrip (t : IntTy) (ht : 0 < t.bytes) (h8 : t.bytes ≤ 8) (vs : List Int)
+    (hv : ∀ v ∈ vs, t.InRange v) (rest : List Ch) :
+    vecInput t vs.length (IStream.ofString (vecOutput vs [] ++ rest)) = ({ buf := rest, eof := false, fail := false }, vs) := by
+  unfold vecInput IStream.ofString
+  rw [vecOutput_eq]
+  simp only [List.nil_append, List.append_assoc, List.cons_append]
+  rw [expect_match 40 _ (by decide)]
+  have h := vecInputLoop_body t ht h8 vs hv rest []
+  rw [h]
+  simp only [List.reverse_nil, List.nil_append]
+  rw [expect_match 41 _ (by decide)]
+
+example : vecOutput [1, -2, 3] [] = [40, 49, 44, 45, 50, 44, 51, 41] := by decide
+example : vecInput ⟨4, true⟩ 2 (IStream.ofString [40, 32, 49, 32, 44, 50, 41, 120]) = ({ buf := [120], eof := false, fail := false }, [1, 2]) := by decide
+/-- a missing `)` is a failure -/
+example : (vecInput ⟨4, true⟩ 2 (IStream.ofString [40, 49, 44, 50])).1.fail = true := by decide
 
 end Fcppt.C15
